@@ -18,6 +18,7 @@ structure State where
   /-- example CAN tunnel: configuration, frames per packet, queued frames (with their
       timestamps), packets produced, sequence counters, virtual clock -/
   tun : TunnelCfg := ⟨false, false, false⟩
+  crf : CrfState := {}
   count : Nat := 1
   frames : List (Nat × CanFrame) := []
   pkts : List (List Byte) := []
@@ -264,6 +265,10 @@ def step (st : State) (line : String) : State × String :=
     | some d =>
       let r := recvInto CVF_BUF 0x01 (bytesOf d)
       (st, match cvfRecv r.1 r.2 with | some nal => "out " ++ hexOfBytes nal | none => "drop")
+    | none => (st, "bad-op")
+  | ["rx", "crf", hex] =>
+    match parseHex hex with
+    | some d => let r := crfListenerStep st.crf (bytesOf d); ({ st with crf := r.1 }, "out " ++ hexOfBytes r.2)
     | none => (st, "bad-op")
   | ["rx", "aaf", hex] =>
     match parseHex hex with
